@@ -180,6 +180,26 @@ class IntMode:
                 return (a.t == b.t) if op == '==' else (a.t != b.t)
         raise Unsupported('integer mode: operator %s' % op)
 
+    def unop(self, op, a):
+        """wrapping unary operators on 64-bit words: -x = (2^64 - x) mod 2^64, ^x = 2^64 - 1 - x"""
+        a = iv(a)
+        if op == '-':
+            if isinstance(a.t, int):
+                return iv((-a.t) % W)
+            if a.lo >= 1:
+                return IV(W - a.t, W - a.hi, W - a.lo, None)
+            d = self.word('neg')
+            k = self.fresh('negz', 0, 1)          # k = 1 exactly when x = 0 (then -x = 0), enforced by the ranges: x + d = 2^64 (1 - k) ... 
+            self.eqs.append(a.t + d.t == W * (1 - k.t))
+            self.eqs.append(z3.Implies(k.t == 1, a.t == 0))
+            self.eqs.append(z3.Implies(a.t == 0, k.t == 1))
+            return d
+        if op == '^':
+            if isinstance(a.t, int):
+                return iv(W - 1 - a.t)
+            return IV(W - 1 - a.t, W - 1 - a.hi, W - 1 - a.lo, None)
+        raise Unsupported('integer mode: unary operator %s' % op)
+
     def convert(self, v, fbits, tbits):
         v = iv(v)
         if v.lo >= 0 and v.hi < (1 << tbits):
